@@ -7,7 +7,7 @@ import typing
 
 from ._pathcompat import commonpath
 from .copy import copy_dir, copy_file
-from .errors import FSError
+from .errors import DirectoryExpected, FSError
 from .opener import manage_fs
 from .osfs import OSFS
 from .path import frombase
@@ -138,6 +138,8 @@ def move_dir(
     with manage_fs(src_fs, writeable=True) as _src_fs:
         with manage_fs(dst_fs, writeable=True, create=True) as _dst_fs:
             with _src_fs.lock(), _dst_fs.lock():
+                if not _src_fs.getinfo(src_path).is_dir:
+                    raise DirectoryExpected(src_path)
                 _dst_fs.makedir(dst_path, recreate=True)
                 copy_dir(
                     src_fs,
